@@ -29,6 +29,7 @@ func runC08(c *Ctx) {
 	c.ruleR08d("R08d span-and-value-plumbing")
 	c.ruleR09a("R08e terminal-and-reader-accesses-in-bounds", append(c.terminalFns(), c.readerFns()...), 20)
 	c.ruleR04c("R04c leaf-contract")
+	c.ruleW0("R08f input-not-overwritten (W0)")
 }
 
 // terminalFns: all functions of package text/terminal (closures included).
